@@ -209,6 +209,7 @@ func (w *World) feedRefs(step int) error {
 			}
 			ref.Seq = next
 			ev["content"] = ref.Doc.Marshal()
+			ev["ncontent"] = NormContentOf(ref.Doc.RootObject())
 			ev["pres"] = w.PresString(ref.Doc.AllPresences())
 			// C09: the same row, but the original change object as the author made it
 			ev["dcontent"], ev["dok"] = "", true
